@@ -720,7 +720,7 @@ func runC14(r *rep.Report, thorough bool) error {
 	r.Rule = "endpoint lists extracted by the real ParseEcho from synthesised route files (all verbs; JSON body, form data with file / values / JSON field, query parameters of every basic kind and of named types, blob / JSON / no return) through the real GenerateAxios: (1) frame, every method and the type section compared token-wise with the Lean model's text; (2) the real methods, type annotations stripped, run under Node against a recording stand-in for axios with generated arguments: the recorded call vs the Lean request semantics (correspondence) and vs the request the contract asks for under the axios API (failure); (3) named types mentioned by the signatures are declared in the file. non-trivial = endpoint with a body, form data or query parameters"
 	log.SetOutput(io.Discard)
 	rng := rand.New(rand.NewSource(r.Seed))
-	n := 40
+	n := 100
 	if thorough {
 		n = 400
 	}
